@@ -57,6 +57,7 @@ class Tracer:
         self.jobid = {}          # real job.id -> model id
         self.jobobj = []
         self.newop_index = {}    # model id -> index in trace of its ONew
+        self.first_args = {}     # model id -> evaluated (args, kwargs)
         self.trace = []
         self.labels = []         # model of the event queue: list of (kind, model id)
         self.depth = 0
@@ -107,6 +108,7 @@ class Tracer:
                 T.jobid[job.id] = mid
                 T.jobobj.append(job)
                 T.newop_index[mid] = len(T.trace)
+                T.first_args[mid] = eval_args   # (args, kwargs) as first evaluated (jobs are cleared later)
                 T.emit(["ONew", mid])        # parameters filled in after the run
             T.labels.append(("exec", T.jobid[job.id]))
             return orig_exec_job(job, eval_args)
